@@ -7,7 +7,7 @@ incl. fall-back, and messages holding a descriptor that is in no table."""
 import hashlib
 import json
 
-from vlib import runner, sut, std
+from vlib import runner, sut, std, fuzz
 from vlib.compare import first_value_diff
 from vlib.runner import Outcome, Report, Reject
 from gen import messages as gmsg, pool as gpool
@@ -533,6 +533,11 @@ def all_selections():
     return sels, locs
 
 
+# ---- coverage-guided stage: the same generators and oracles, decisions taken from fuzzer bytes (vlib.fuzz) ----
+fuzz_list = fuzz.structured_target(gen_list, check_list)
+fuzz_unknown = fuzz.structured_target(gen_unknown, check_unknown)
+
+
 def run(tier, seed):
     rep = Report(PID, tier, seed, 'exploration')
     rep.rule = ('exhaustive: every Table D entry and Table B row of the selected bundled table groups (quick: 5 master versions + '
@@ -590,6 +595,8 @@ def run(tier, seed):
     rep.required_classes = ['list_nesting_4', 'list_with_undefined_id', 'list_X_ge_40', 'unknown_in_221', 'unknown_fixed_rep',
                             'unknown_delayed_rep', 'unknown_after_rep', 'unknown_nested_rep', 'unknown_sequence', 'unknown_replication_factor',
                             'selection_cell', 'table_d_entries']
+    fuzz.run_structured(rep, 'checks.c14', gen_list, tier, funcname='fuzz_list', tag='lists')
+    fuzz.run_structured(rep, 'checks.c14', gen_unknown, tier, funcname='fuzz_unknown', tag='unknown')
     return rep.finish()
 
 
